@@ -34,17 +34,22 @@ const nAcc = 4
 // (the app pool allocates a slice of that capacity, so it is kept moderate).
 const bigReap = 1000
 
+// obsReap is the limit of the harness's own "show me the whole pending queue" reaps: above
+// anything the pool can hold (pending <= 30, admin <= 30) with room to see an overrun, and small
+// because Reap allocates a slice of that capacity on every call.
+const obsReap = 128
+
 // ---------------------------------------------------------------------------------------
 // case
 
 // Op is one step of a history. All numbers are relative to the model state at the time the
 // op runs (nonces are "state nonce + d"), so every sub-sequence of a history is a history.
 type Op struct {
-	K    string `json:"k"`              // sub | ext | dup | adm | reap | commit | fcommit | flush
+	K    string `json:"k"`              // sub | ext | rev | dup | adm | reap | commit | fcommit | flush
 	A    int    `json:"a,omitempty"`    // account 0..3
 	D    int    `json:"d,omitempty"`    // sub: nonce = state nonce + d, d in [-2,5]; ext: nonce = first unheld nonce + d, d in [0,1]
 	V    int    `json:"v,omitempty"`    // variant: same account+nonce, different gas limit => different tx hash
-	R    int    `json:"r,omitempty"`    // sub: r further variants v+1..v+r of the same account+nonce follow (repeats); ext: r further consecutive nonces follow, in order
+	R    int    `json:"r,omitempty"`    // sub: r further variants v+1..v+r of the same account+nonce follow (repeats); ext: r further consecutive nonces follow, in order; rev: the r+1 nonces from the first unheld one on, highest first (the lowest arrives last and makes the whole run executable at once)
 	I    int    `json:"i,omitempty"`    // dup: index (mod count) of an earlier submission sent again byte-identically; adm: payload id
 	N    int    `json:"n,omitempty"`    // reap: limit
 	Take []int  `json:"take,omitempty"` // commit: per account how many of its offered txs (nonce order) go in the block; fcommit: per account how many nonces a block from another proposer (txs this pool never saw) consumes
@@ -54,7 +59,7 @@ type Op struct {
 }
 
 type PoolCase struct {
-	BlockSize int  `json:"block_size"` // pool limits are 10*block_size (waiting), 10*block_size (pending), 10*block_size (admin)
+	BlockSize int  `json:"block_size"` // 1..3; pool limits are 10*block_size (waiting), 10*block_size (pending), 10*block_size (admin)
 	Ops       []Op `json:"ops"`
 }
 
@@ -71,6 +76,12 @@ func genOp(variants bool) *rapid.Generator[Op] {
 			for a := 0; a < nAcc; a++ {
 				o.Take[a] = rapid.SampledFrom([]int{0, 0, 1, 1, 2}).Draw(t, "ftake")
 			}
+		case w >= 76 && w < 80:
+			// a run submitted highest nonce first: everything waits until the lowest arrives, then the
+			// whole run is promoted together (the way to a long PENDING run without a commit in between)
+			o.K = "rev"
+			o.A = rapid.IntRange(0, nAcc-1).Draw(t, "a")
+			o.R = rapid.SampledFrom([]int{1, 2, 3, 5, 7}).Draw(t, "run")
 		case w < 24:
 			o.K = "sub"
 			o.A = rapid.IntRange(0, nAcc-1).Draw(t, "a")
@@ -122,16 +133,17 @@ func genOp(variants bool) *rapid.Generator[Op] {
 
 func genPool(t *rapid.T) PoolCase {
 	var c PoolCase
-	c.BlockSize = rapid.SampledFrom([]int{1, 1, 3}).Draw(t, "blockSize")
+	c.BlockSize = rapid.SampledFrom([]int{1, 1, 1, 2, 3}).Draw(t, "blockSize")
 	variants := rapid.IntRange(0, 2).Draw(t, "variants") > 0
 	// rapid's own slice lengths are strongly biased to short slices: draw the length explicitly
 	n := rapid.IntRange(3, 60).Draw(t, "nops")
-	if rapid.IntRange(0, 3).Draw(t, "nearFull") == 0 {
+	limit := 10 * c.BlockSize
+	switch rapid.IntRange(0, 7).Draw(t, "scenario") {
+	case 0, 1:
 		// Scenario prefix "pool nearly full, several accounts parked behind a gap": one account fills
 		// the pending queue up to a few free slots, 2..3 other accounts queue nonces above their
 		// state nonce, then a block from another proposer consumes the missing nonces of all of them
 		// at once. Everything after the prefix is the usual random history.
-		limit := 10 * c.BlockSize
 		filler := rapid.IntRange(0, nAcc-1).Draw(t, "filler")
 		fill := limit - rapid.IntRange(0, 4).Draw(t, "room")
 		if rapid.IntRange(0, 3).Draw(t, "fillInOrder") == 0 {
@@ -163,6 +175,69 @@ func genPool(t *rapid.T) PoolCase {
 			fc.Take[a] = gap
 		}
 		c.Ops = append(c.Ops, fc)
+		n = rapid.IntRange(0, 25).Draw(t, "nopsAfterPrefix")
+	case 2, 3:
+		// Scenario prefix "two queues, each below its own bound, together at or above one bound":
+		// one (or two) accounts hold a long PENDING run that leaves 1..5 free pending slots, one or two
+		// other accounts have a few txs WAITING behind a gap, so that pending + waiting is around
+		// waitingLimit while the waiting queue alone is far below it. Then the probes: an account
+		// without anything in the pool submits its executable tx (must be taken: neither queue is
+		// full), an account with waiting txs submits the missing lower nonce (nothing it queued
+		// before may be displaced). Everything after that is the usual random history.
+		filler := rapid.IntRange(0, nAcc-1).Draw(t, "filler")
+		room := rapid.IntRange(1, 5).Draw(t, "room")
+		pend := limit - room
+		nWait := 1 + rapid.IntRange(0, 1).Draw(t, "waitingAccounts") // a fresh account always remains
+		if rapid.IntRange(0, 3).Draw(t, "splitPending") == 0 && pend >= 4 {
+			// the pending run is split over two accounts, one account waits, one stays fresh
+			nWait = 1
+			k := rapid.IntRange(1, pend/2).Draw(t, "pendingShare")
+			c.Ops = append(c.Ops, Op{K: "rev", A: (filler + 2) % nAcc, R: k - 1})
+			pend -= k
+		}
+		c.Ops = append(c.Ops, Op{K: "rev", A: filler, R: pend - 1})
+		// waiting txs: pending + waiting = limit + delta
+		wTotal := room + rapid.IntRange(-2, 3).Draw(t, "delta")
+		if wTotal < nWait {
+			wTotal = nWait
+		}
+		if wTotal > limit-1 {
+			wTotal = limit - 1
+		}
+		var gaps [nAcc]int
+		for j := 0; j < nWait; j++ {
+			a := (filler + 1 + 2*j) % nAcc // filler+1, filler+3; filler+2 is fresh or the second pending account
+			run := wTotal
+			if j == 0 && nWait == 2 {
+				run = rapid.IntRange(1, wTotal-1).Draw(t, "waitingShare")
+			}
+			wTotal -= run
+			gaps[a] = rapid.SampledFrom([]int{1, 1, 2}).Draw(t, "gap")
+			if rapid.IntRange(0, 2).Draw(t, "waitInOrder") > 0 {
+				for d := gaps[a]; d < gaps[a]+run; d++ {
+					c.Ops = append(c.Ops, Op{K: "sub", A: a, D: d})
+				}
+			} else {
+				for d := gaps[a] + run - 1; d >= gaps[a]; d-- {
+					c.Ops = append(c.Ops, Op{K: "sub", A: a, D: d})
+				}
+			}
+		}
+		fresh := (filler + 2) % nAcc // nothing of this account is in the pool
+		if nWait == 1 {
+			fresh = (filler + 3) % nAcc // filler+2 may be the second pending account
+		}
+		for k, np := 0, rapid.IntRange(1, 3).Draw(t, "probes"); k < np; k++ {
+			w := (filler + 1 + 2*rapid.IntRange(0, nWait-1).Draw(t, "probeWaitingAccount")) % nAcc
+			switch rapid.IntRange(0, 4).Draw(t, "probe") {
+			case 0, 1: // executable tx of an account that has nothing in the pool (or of the second pending account)
+				c.Ops = append(c.Ops, Op{K: "ext", A: fresh, R: rapid.SampledFrom([]int{0, 0, 1}).Draw(t, "freshRun")})
+			case 2, 3: // the missing head of an account with waiting txs
+				c.Ops = append(c.Ops, Op{K: "sub", A: w, D: 0})
+			default: // a lower, still gapped nonce of an account with waiting txs (if its gap is 2), else its head
+				c.Ops = append(c.Ops, Op{K: "sub", A: w, D: gaps[w] - 1})
+			}
+		}
 		n = rapid.IntRange(0, 25).Draw(t, "nopsAfterPrefix")
 	}
 	c.Ops = append(c.Ops, rapid.SliceOfN(genOp(variants), n, n).Draw(t, "ops")...)
@@ -294,8 +369,13 @@ type rec struct {
 	invalidInBlock bool // contained in a committed block but rejected by execution (nonce in the future)
 }
 
+// The pool has TWO bounds besides the admin one: pendingLimit (executable txs, what Reap offers)
+// and waitingLimit (everything else it holds), both 10*block_size. Every submission enters the
+// waiting queue first, so the pool may refuse or displace only while THAT queue is full; a full
+// pending queue only delays promotion. The pending queue is observable (an unlimited Reap), the
+// waiting queue is bounded from above by "everything the pool may hold minus what it offers".
 type model struct {
-	limit   int
+	limit   int // pendingLimit == waitingLimit == admin limit
 	s       [nAcc]uint64
 	may     [nAcc]map[uint64][]*rec // upper set: everything the pool may hold, by nonce (all variants)
 	must    [nAcc]map[uint64]bool   // lower set: nonces for which the pool is obliged to hold one tx
@@ -306,9 +386,9 @@ type model struct {
 	// accepted at capacity): the only txs the known `all`-index leak can be explained by.
 	leakBudget    int
 	staleAccepted int
-	// linger: txs that went stale at a commit after which the pool was still at capacity. The pool
+	// linger: txs that went stale at a commit after which the PENDING queue was full. The pool
 	// cleans its waiting queue lazily (promoteExecutables stops as soon as pending is full), so
-	// these may stay in the waiting queue (and in Size) until a commit leaves the pool below capacity.
+	// these may stay in the waiting queue (and in Size) until a commit leaves pending below its bound.
 	linger int
 }
 
@@ -387,14 +467,22 @@ func (m *model) flush() {
 	m.linger = 0
 }
 
+// waitingUpper: upper bound of the number of txs in the pool's waiting queue, given how many of
+// the txs the model may hold are offered right now (= are in the pending queue).
+func (m *model) waitingUpper(heldOffered int) int {
+	return m.ethCount() + m.linger + m.staleAccepted - heldOffered
+}
+
 // dropStale removes everything below the state nonce from the model (after a commit).
-func (m *model) dropStale() {
+// pendingBelowBound: the pending queue observed after the commit is below pendingLimit, i.e. the
+// pool's promotion pass visited every account and no stale tx is left in the waiting queue.
+func (m *model) dropStale(pendingBelowBound bool) {
 	dropped := 0
 	defer func() {
-		if m.ethCount() >= m.limit {
-			m.linger += dropped
-		} else {
+		if pendingBelowBound {
 			m.linger = 0
+		} else {
+			m.linger += dropped
 		}
 	}()
 	for a := 0; a < nAcc; a++ {
@@ -449,6 +537,38 @@ func newRunner(e *appEnv, x *h.Ctx) *runner {
 
 func (r *runner) label(l string) { r.labels[l] = true }
 
+// obs is what the pool shows of its queues: the pending queue is what an unlimited Reap offers
+// besides admin txs.
+type obs struct {
+	pending     int                   // non-admin txs offered
+	adm         int                   // admin txs offered
+	heldOffered int                   // offered txs that the model counts as held (subset of pending)
+	off         [nAcc]map[uint64]bool // offered nonces per account
+}
+
+func (r *runner) observe() obs {
+	var o obs
+	for _, raw := range r.pool.Reap(obsReap) {
+		if gtypes.IsAdminOP(raw) {
+			o.adm++
+			continue
+		}
+		o.pending++
+		rc := r.byRaw[string(raw)]
+		if rc == nil || rc.admin {
+			continue
+		}
+		if o.off[rc.acct] == nil {
+			o.off[rc.acct] = map[uint64]bool{}
+		}
+		o.off[rc.acct][rc.nonce] = true
+		if rc.held && rc.nonce >= r.m.s[rc.acct] {
+			o.heldOffered++
+		}
+	}
+	return o
+}
+
 var traceOn = os.Getenv("C19_TRACE") != ""
 
 // trace prints the model and the pool's view after a step (replay debugging aid, C19_TRACE=1).
@@ -468,7 +588,7 @@ func (r *runner) trace() {
 		fmt.Printf(" a%d s=%d may=%v must=%v pmn=%d |", a, m.s[a], heldNonces(m, a), must, pn)
 	}
 	var off []string
-	for _, raw := range r.pool.Reap(bigReap) {
+	for _, raw := range r.pool.Reap(obsReap) {
 		if rc := r.byRaw[string(raw)]; rc != nil {
 			off = append(off, rc.String())
 		}
@@ -554,9 +674,40 @@ func (r *runner) submitEth(rc *rec) {
 	m := r.m
 	a := rc.acct
 	total := m.ethCount()
-	atCap := total >= m.limit
+	ob := r.observe()
+	wUp := m.waitingUpper(ob.heldOffered)
+	// atCap: the waiting queue, which every submission enters first, may be full: the pool may
+	// refuse the tx or displace another one for it. (A full PENDING queue never entitles the pool to
+	// refuse or drop: the tx just waits.)
+	atCap := wUp >= m.limit
 	wasHeld := rc.held
 	stale := rc.nonce < m.s[a]
+	if !stale && !wasHeld && !atCap && total >= m.limit {
+		// the region where the two bounds must not be mixed up: pending + waiting has reached the
+		// bound of one queue, but the waiting queue itself is below its bound
+		reg := "region:pending+waiting>=waitingLimit,waiting<waitingLimit"
+		r.label(reg)
+		r.nt = true
+		queuedAbove, any := false, len(m.may[a]) > 0
+		for n := range m.may[a] {
+			if n > rc.nonce && !ob.off[a][n] {
+				queuedAbove = true
+			}
+		}
+		switch {
+		case !any && rc.nonce == m.s[a]:
+			r.label(reg + ":executable-tx-of-account-with-nothing-in-the-pool")
+		case queuedAbove && rc.nonce == m.s[a]:
+			r.label(reg + ":missing-head-of-account-with-waiting-txs")
+		case queuedAbove:
+			r.label(reg + ":lower-gapped-nonce-of-account-with-waiting-txs")
+		default:
+			r.label(reg + ":other")
+		}
+		if ob.pending >= m.limit {
+			r.label(reg + ":pending-queue-full")
+		}
+	}
 	err := r.pool.ReceiveTx(rc.raw)
 	switch {
 	case stale:
@@ -577,7 +728,7 @@ func (r *runner) submitEth(rc *rec) {
 		}
 		if !atCap && len(m.may[a][rc.nonce]) == 1 && m.must[a][rc.nonce] {
 			if err == nil {
-				if r.fail("exact-duplicate-accepted", "byte-identical resubmission of held tx %v was accepted (ReceiveTx returned nil)", rc) {
+				if r.fail("exact-duplicate-accepted", "byte-identical resubmission of held tx %v was accepted (ReceiveTx returned nil): the pool takes exact duplicates, or it had silently dropped the tx it accepted before (at most %d txs waiting, bound %d)", rc, wUp, m.limit) {
 					return
 				}
 			} else {
@@ -610,6 +761,10 @@ func (r *runner) submitEth(rc *rec) {
 				r.label("sub:accepted-at-capacity")
 			} else {
 				r.label("sub:rejected-at-capacity")
+				if rc.nonce == m.s[a] && ob.pending < m.limit {
+					// not judged: every submission passes through the waiting queue, and that one may be full
+					r.label("obs:executable-tx-refused-while-the-waiting-queue-may-be-full(pending-has-room)")
+				}
 			}
 		case others > 0:
 			if err == nil {
@@ -621,7 +776,7 @@ func (r *runner) submitEth(rc *rec) {
 			}
 		default:
 			if err != nil {
-				if r.fail("fresh-tx-rejected-below-capacity", "tx %v (state nonce %d, model holds %d txs, limit %d) rejected: %v", rc, m.s[a], total, m.limit, err) {
+				if r.fail("fresh-tx-rejected-below-capacity", "tx %v (state nonce %d) rejected: %v; the pool holds at most %d live txs of which it offers %d (pending queue, bound %d), so at most %d are in the waiting queue (bound %d): the queue the tx enters is not full", rc, m.s[a], err, total+m.linger, ob.pending, m.limit, wUp, m.limit) {
 					return
 				}
 			} else {
@@ -767,15 +922,19 @@ func (r *runner) checkReap(out []gtypes.Tx, n int, strong bool) (eth [nAcc][]*re
 		}
 	}
 
-	// no-loss, immediate part (only while below capacity)
-	total := m.ethCount()
-	unlimited := n >= bigReap || (n < 0 && total+len(m.adm) < m.limit)
-	if unlimited && total < m.limit {
+	// no-loss, immediate part (only while the pending queue is below its bound: pending shrinks
+	// only at a commit, and a commit that leaves it below the bound has promoted every waiting head)
+	pNow := nEth
+	if n < obsReap {
+		pNow = r.observe().pending
+	}
+	unlimited := n >= obsReap || (n < 0 && pNow+len(m.adm) < m.limit)
+	if unlimited && pNow < m.limit {
 		for a := 0; a < nAcc; a++ {
 			run := m.mustRun(a)
 			got := int(next[a] - m.s[a])
 			if run > 0 && got == 0 {
-				if r.fail("executable-head-not-offered-below-capacity", "account %d: tx with the state nonce %d is held (accepted, model holds %d < limit %d) but Reap(%d) offered nothing for the account", a, m.s[a], total, m.limit, n) {
+				if r.fail("executable-head-not-offered-below-capacity", "account %d: tx with the state nonce %d is held (accepted and never displaceable: the waiting queue was below its bound) and the pool offers %d < pendingLimit %d txs, but Reap(%d) offered nothing for the account", a, m.s[a], pNow, m.limit, n) {
 					return
 				}
 			}
@@ -790,7 +949,7 @@ func (r *runner) checkReap(out []gtypes.Tx, n int, strong bool) (eth [nAcc][]*re
 			}
 		}
 	}
-	if n >= bigReap || (n < 0 && total+len(m.adm) < m.limit) {
+	if unlimited {
 		for rc := range m.admMust {
 			if !seen[rc] {
 				if r.fail("held-admin-tx-not-offered", "admin tx %v is held but Reap(%d) did not offer it", rc, n) {
@@ -799,7 +958,7 @@ func (r *runner) checkReap(out []gtypes.Tx, n int, strong bool) (eth [nAcc][]*re
 			}
 		}
 	}
-	if n > 0 && n < bigReap && len(out) == n {
+	if n > 0 && n < obsReap && len(out) == n {
 		r.label("reap:truncated-by-limit")
 	}
 	return
@@ -845,7 +1004,7 @@ func (r *runner) checkSize() {
 // waiting queue is everything else Size() counts (<= waitingLimit).
 func (r *runner) checkBounds() {
 	m := r.m
-	out := r.pool.Reap(bigReap)
+	out := r.pool.Reap(obsReap)
 	pending, adm := 0, 0
 	for _, raw := range out {
 		if gtypes.IsAdminOP(raw) {
@@ -857,7 +1016,7 @@ func (r *runner) checkBounds() {
 	sz := r.pool.Size()
 	waiting := sz - pending - adm
 	if pending > m.limit {
-		if r.fail("pending-exceeds-configured-limit", "the pool offers %d executable txs (Reap(%d) minus admin txs), pendingLimit is %d (block_size*10)", pending, bigReap, m.limit) {
+		if r.fail("pending-exceeds-configured-limit", "the pool offers %d executable txs (Reap(%d) minus admin txs), pendingLimit is %d (block_size*10)", pending, obsReap, m.limit) {
 			return
 		}
 	}
@@ -897,10 +1056,9 @@ func (r *runner) checkPendingNonce() {
 			continue
 		}
 		want := m.firstUnheld(a)
-		if m.ethCount() >= m.limit || m.linger > 0 {
-			// at capacity the pool cleans its waiting queue lazily: stale txs may still sit in front of
-			// the queued ones and the query then answers the state nonce. Like every obligation of the
-			// model this one is suspended at capacity: observation only.
+		if m.linger > 0 {
+			// while pending is full the pool cleans its waiting queue lazily: stale txs may still sit in
+			// front of the queued ones and the query then answers the state nonce: observation only.
 			if got != want {
 				r.label("obs:pending-nonce-differs-from-first-unheld(at-capacity,stale-leftovers-in-waiting)")
 			}
@@ -1002,7 +1160,7 @@ func (r *runner) commitBlock(eth [nAcc][]*rec, adm []*rec) {
 			return
 		}
 	}
-	m.dropStale()
+	m.dropStale(r.observe().pending < m.limit)
 	for _, rc := range adm {
 		rc.committed = true
 		rc.held = false
@@ -1017,8 +1175,8 @@ func (r *runner) commitBlock(eth [nAcc][]*rec, adm []*rec) {
 }
 
 func (r *runner) opCommit(o Op) {
-	out := r.pool.Reap(bigReap)
-	eth, adm := r.checkReap(out, bigReap, false)
+	out := r.pool.Reap(obsReap)
+	eth, adm := r.checkReap(out, obsReap, false)
 	if r.stop {
 		return
 	}
@@ -1080,8 +1238,8 @@ func (r *runner) opCommit(o Op) {
 	if r.stop {
 		return
 	}
-	out = r.pool.Reap(bigReap)
-	r.checkReap(out, bigReap, true)
+	out = r.pool.Reap(obsReap)
+	r.checkReap(out, obsReap, true)
 }
 
 // foreignVariant marks txs that are never submitted to the pool: they reach the chain through a
@@ -1091,8 +1249,8 @@ const foreignVariant = 9
 // opForeignCommit commits a block of txs this pool never saw (blocks come from other proposers):
 // per account the next Take[a] nonces, executed through the real app, then Update + OnCommit.
 func (r *runner) opForeignCommit(o Op) {
-	out := r.pool.Reap(bigReap)
-	r.checkReap(out, bigReap, false)
+	out := r.pool.Reap(obsReap)
+	r.checkReap(out, obsReap, false)
 	if r.stop {
 		return
 	}
@@ -1133,8 +1291,8 @@ func (r *runner) opForeignCommit(o Op) {
 	if r.stop {
 		return
 	}
-	out = r.pool.Reap(bigReap)
-	r.checkReap(out, bigReap, true)
+	out = r.pool.Reap(obsReap)
+	r.checkReap(out, obsReap, true)
 }
 
 // drain: no-loss, eventual part. Reap and commit everything until nothing is offered; every
@@ -1152,8 +1310,8 @@ func (r *runner) drain() {
 	}
 	rounds := 0
 	for ; rounds < 64; rounds++ {
-		out := r.pool.Reap(bigReap)
-		eth, adm := r.checkReap(out, bigReap, rounds > 0)
+		out := r.pool.Reap(obsReap)
+		eth, adm := r.checkReap(out, obsReap, rounds > 0)
 		if r.stop {
 			return
 		}
@@ -1226,6 +1384,12 @@ func (r *runner) run(c PoolCase) {
 				r.opDesc = fmt.Sprintf("ext acct%d nonce%d", o.A, n+uint64(k))
 				r.submitEth(r.ethRec(o.A, n+uint64(k), 0))
 			}
+		case "rev":
+			n := r.m.firstUnheld(o.A)
+			for k := o.R; k >= 0 && !r.stop; k-- {
+				r.opDesc = fmt.Sprintf("rev acct%d nonce%d", o.A, n+uint64(k))
+				r.submitEth(r.ethRec(o.A, n+uint64(k), 0))
+			}
 		case "dup":
 			if len(r.order) == 0 {
 				r.label("dup:nothing-to-repeat")
@@ -1280,7 +1444,7 @@ func (r *runner) run(c PoolCase) {
 
 func runPool(c PoolCase, x *h.Ctx) {
 	bs := c.BlockSize
-	if bs != 1 && bs != 3 {
+	if bs < 1 || bs > 3 {
 		bs = 1
 	}
 	envUse.Lock() // one case at a time per process (the app is shared)
